@@ -28,7 +28,7 @@ class C11(Profile):
     tiers = {'quick': 3000, 'thorough': 300000}
     wall_cap = {'quick': 1200, 'thorough': 6 * 3600}
     probes = ['older_version_added_after_newer', 'bundle_form', 'text_form', 'unregistered_dict_versioned',
-              'save_dir_path', 'torn_write_then_restart', 'enospc_mid_list', 'exact_readd', 'read_under_torn_file',
+              'save_dir_path', 'torn_write_then_restart', 'enospc_mid_list', 'exact_readd', 'read_under_torn_file', 'failed_write_cleaned_up',
               'save_load_compared', 'utf16_save', 'bundlify_store', 'fault_on_read_fired', 'mixed_versions_in_memory',
               'add_resolved_by_observation', 'same_instant_respelled', 'loaded_into_nonempty_store', 'memory_store_constructed_with_data', 'single_object_file_loaded', 'file_vanished_under_reader']
     rule = ('plans: a pool of <=12 ids x <=5 versions (versioned SDO/SRO of 2.0 and 2.1, 2.1 SCOs, marking definitions, registered '
@@ -231,7 +231,7 @@ class C11(Profile):
                 world.probe('older_version_added_after_newer')
             if e['kind'] == 'unreg' and key[1] is not None:
                 world.probe('unregistered_dict_versioned')
-        before_disk = sw.disk_model()[0] if store == 'F' else None
+        before_disk, torn_before = sw.disk_model() if store == 'F' else (None, [])
         sw.disk.begin_op(op.get('ls_key', 0), op.get('fault') if store == 'F' else None)
         sw.disk.mark_op_writes()
         crashed = False
@@ -285,6 +285,15 @@ class C11(Profile):
                                 dict(keys=[SW.kstr(k) for k in ks], form=op['form'], exc=repr(out.exc)[:300],
                                      stored=sorted(SW.kstr(k) for k in model if k[0] in {x[0] for x in ks})[:6]))
             if store == 'F':
+                # an add that FAILED (the process lives on) must not leave a file the source cannot read: from then on every
+                # read that touches it would raise and the store would stop agreeing with any list.  (After a crash the
+                # truncated file is legitimate in-flight state and is tolerated, see torn_write_then_restart.)
+                left = [rel for rel in sw.disk_model()[1] if rel not in torn_before]
+                if left:
+                    raise Violation('failed-add-clean', 'C11.failed-add-left-unreadable-file/%s' % (fired[0] if fired else type(out.exc).__name__),
+                                    dict(files=left[:3], fired=fired, exc=repr(out.exc)[:200], form=op['form']))
+                if fired and fired[0].endswith('@write'):
+                    world.probe('failed_write_cleaned_up')
                 self.resolve_fs(sw, world, before_disk)
             else:
                 self.resolve_mem(sw, world, keys)
